@@ -282,7 +282,7 @@ class Mem:
         okr, rs = self.check(st, 'R', src, length.a, ins)
         okw, rd = self.check(st, 'W', dst, length.a, ins)
         h = self.ctx.hooks
-        if okw and h is not None:
+        if h is not None and isinstance(dst, Ptr) and rd is not None:
             h.on_copy(st, rd, dst.off, rs if okr else None, src.off if okr else None, length, ins)
         if okw and rd.content == 'cells':
             lc = st.store.const_of(length.a)
